@@ -84,7 +84,34 @@ def definitional(ex, th, terms, depth=2):
         if not new_terms:
             break
         frontier = [x for x in analyze_all(new_terms, th).special if x.get_id() not in done]
+    seen_sub = set()
+    for _round in range(2):       # second round: slices introduced by the concatenation facts of the first
+        apps = [x for x in analyze_all(list(terms) + facts, th).special if x.decl().name() == "substr"]
+        key = tuple(sorted(a.get_id() for a in apps))
+        if not apps or key in seen_sub:
+            break
+        seen_sub.add(key)
+        facts.extend(_substr_facts(th, apps))
     return facts
+
+
+def _substr_facts(th, apps, limit=18):
+    """Definitional facts of s[a:b] (bounds already clamped to 0..len(s)): the empty and the whole slice, and adjacent
+    slices of one string concatenate: s[a:b] + s[b:c] == s[a:c]."""
+    out = []
+    apps = apps[:limit]
+    for p in apps:
+        s0, a, b = p.arg(0), p.arg(1), p.arg(2)
+        out.append(z3.Implies(b <= a, p == th.empty))
+        out.append(z3.Implies(z3.And(a == 0, b == th.length(s0)), p == s0))
+    f = apps[0].decl() if apps else None
+    for p in apps:
+        for q in apps:
+            if p.get_id() == q.get_id() or not p.arg(0).eq(q.arg(0)):
+                continue
+            a, b, c = p.arg(1), p.arg(2), q.arg(2)
+            out.append(z3.Implies(z3.And(b == q.arg(1), a <= b, b <= c), th.cat(p, q) == f(p.arg(0), a, c)))
+    return out
 
 
 def build_query(ob: Obligation, ex, ncands=40, rounds=2):
@@ -110,7 +137,7 @@ def build_query(ob: Obligation, ex, ncands=40, rounds=2):
                 break
             inst.extend(new)
     core = list(ob.pc) + inst
-    defs = definitional(ex, th, core + [ob.goal])
+    defs = definitional(ex, th, core + [ob.goal], depth=getattr(getattr(getattr(ex, 'unit', None), 'contract', None), 'unfold_depth', 2))
     core += defs
     sat_facts = th.saturate(core + [ob.goal])
     seen, facts = set(), []
